@@ -1014,7 +1014,7 @@ class ComplexGammatoneFilterBank(LinearFilterBank):
         log_factorial = np.log(math.factorial(order - 1))
         log_2 = np.log(2)
         if erb:
-            alpha_const = log_2 * (2 * order - 1)
+            alpha_const = log_2 * (2 * order - 2) - np.log(np.pi)
             alpha_const += 2 * log_factorial
             alpha_const -= log_double_factorial
         else:
